@@ -3,6 +3,7 @@
 package connectconformance
 
 import (
+	"bytes"
 	"context"
 	"encoding/binary"
 	"errors"
@@ -774,4 +775,110 @@ func TestVerifC10Cuts(t *testing.T) {
 	sort.Strings(nil)
 	rep.Sample(map[string]any{"stream": "3 frames of 24 bytes", "cut": 30, "expect": "first request answered, second and third get an error"})
 	rep.RequireMin("answers_after_cut", 100)
+}
+
+// TestVerifC10OSProcess: the same exactly-once oracle with real OS processes
+// as clients (runCommand): commands that exit before, while or after reading
+// their requests.
+func TestVerifC10OSProcess(t *testing.T) {
+	rep := verifkit.Begin("C10", "os-process", "runClient(runCommand(sh -c script)) with scripts {exit at once, exit non-zero, read 2 bytes then exit, exit late without reading, consume everything and answer nothing, garbage without reading}; 1-4 requests, one of them 300 KB (larger than the pipe buffer) so that a send is in progress when the process dies; oracle: every accepted send gets exactly one (error) callback, refused sends none, waitForResponses returns within the progress bound, late sends refused, isRunning false; distinct = (script, request count, repetition)")
+	defer rep.Write()
+	scripts := map[string]string{
+		"exit-at-once":            "exit 0",
+		"exit-nonzero-at-once":    "exit 3",
+		"read-2-bytes-then-exit":  "head -c 2 >/dev/null; exit 0",
+		"exit-late-without-read":  "sleep 0.03; exit 1",
+		"consume-answer-nothing":  "cat >/dev/null",
+		"garbage-without-reading": "printf '\\000\\000\\000\\005\\377\\377\\377\\377\\377'; sleep 0.02",
+	}
+	reps := verifkit.Scale(3, 25)
+	for _, name := range verifkit.SortedKeys(scripts) {
+		for r := 0; r < reps; r++ {
+			n := 1 + r%4
+			rep.Eval(1)
+			rep.DistinctKey(name, n, r)
+			w := map[string]any{"script": scripts[name], "name": name, "requests": n}
+			ctx, cancel := context.WithCancel(context.Background())
+			runner, err := runClient(ctx, runCommand([]string{"/bin/sh", "-c", scripts[name]}))
+			if err != nil {
+				cancel()
+				rep.Inconcl("cannot start /bin/sh: " + err.Error())
+				continue
+			}
+			var mu sync.Mutex
+			cbs := map[string]int{}
+			cbResp := 0
+			accepted := map[string]bool{}
+			finished := make(chan struct{})
+			go func() {
+				defer close(finished)
+				for i := 0; i < n; i++ {
+					nm := fmt.Sprintf("os/%s/%d/%d", name, r, i)
+					req := &conformancev1.ClientCompatRequest{TestName: nm}
+					if i == n-1 {
+						req.RequestMessages = nil
+						req.ServerTlsCert = bytes.Repeat([]byte("X"), 300000)
+					}
+					err := runner.sendRequest(req, func(got string, resp *conformancev1.ClientCompatResponse, err error) {
+						mu.Lock()
+						cbs[got]++
+						if err == nil {
+							cbResp++
+						}
+						mu.Unlock()
+					})
+					mu.Lock()
+					if err == nil {
+						accepted[nm] = true
+					} else {
+						accepted[nm] = false
+					}
+					mu.Unlock()
+				}
+				runner.closeSend()
+				_ = runner.waitForResponses()
+			}()
+			bound := 90 * time.Second
+			if vfDeadlockSeen.Load() {
+				bound = 25 * time.Second
+			}
+			select {
+			case <-finished:
+			case <-time.After(bound):
+				vfDeadlockSeen.Store(true)
+				rep.Violation("mux/os/not-terminating/"+name, "sendRequest/closeSend/waitForResponses did not return within the progress bound with an OS-process client that "+name, w)
+				cancel()
+				continue
+			}
+			if runner.sendRequest(&conformancev1.ClientCompatRequest{TestName: "late"}, func(string, *conformancev1.ClientCompatResponse, error) {}) == nil {
+				rep.Violation("mux/os/late-send-accepted/"+name, "send after the client process ended was accepted", w)
+			}
+			deadline := time.Now().Add(3 * time.Second)
+			for runner.isRunning() && time.Now().Before(deadline) {
+				time.Sleep(time.Millisecond)
+			}
+			if runner.isRunning() {
+				rep.Violation("mux/os/still-running-after-exit/"+name, "isRunning() true after the OS process ended", w)
+			}
+			runner.stop()
+			cancel()
+			mu.Lock()
+			for nm, ok := range accepted {
+				want := 0
+				if ok {
+					want = 1
+				}
+				if cbs[nm] != want {
+					rep.Violation(fmt.Sprintf("mux/os/callback-count/%d-for-accepted-%v", cbs[nm], ok), fmt.Sprintf("%s: accepted=%v but %d callbacks", nm, ok, cbs[nm]), w)
+				}
+			}
+			if cbResp > 0 {
+				rep.Violation("mux/os/response-from-nowhere/"+name, "a callback received a response although the process never answered", w)
+			}
+			mu.Unlock()
+			rep.Count("os:"+name, 1)
+		}
+	}
+	rep.Sample(map[string]any{"script": "head -c 2 >/dev/null; exit 0", "requests": 2, "expect": "both sends either refused or answered with an error exactly once; wait returns"})
+	rep.RequireMin("os:read-2-bytes-then-exit", 2)
 }
